@@ -102,6 +102,14 @@ def strip_good(var_name):
     return var_name[len("<state>"):] if var_name.startswith("<state>") else var_name.lstrip("_ ")
 
 
+def shared_bad(names):
+    return dict.fromkeys(names, {})
+
+
+def shared_good(names):
+    return {name: {} for name in names}, dict.fromkeys(names, 0), [None] * len(names)
+
+
 def mutate_bad(statement):
     loops = statement.loops
     loops.reverse()
@@ -161,6 +169,29 @@ def _strip(f):
             if len(a) >= 2 and sum(c.isalnum() for c in a) >= 2:
                 out.append((x, f"{norm(x, 50)}: strips every leading/trailing character in "
                                f"{sorted(set(a))}, not the word"))
+    return out
+
+
+def _mutable_value(e):
+    return isinstance(e, (ast.List, ast.Dict, ast.Set, ast.ListComp, ast.DictComp, ast.SetComp)) or (
+        isinstance(e, ast.Call) and dotted(e.func) in ("list", "dict", "set", "deque", "defaultdict",
+                                                        "collections.deque", "collections.defaultdict",
+                                                        "OrderedDict"))
+
+
+def _shared(f):
+    """One mutable object handed out as the value of many keys / slots."""
+    out = []
+    for x in ast.walk(f.node):
+        if isinstance(x, ast.Call) and isinstance(x.func, ast.Attribute) and x.func.attr == "fromkeys" \
+                and len(x.args) == 2 and _mutable_value(x.args[1]):
+            out.append((x, f"{norm(x, 50)}: every key gets the same {type(x.args[1]).__name__.lower()} "
+                           f"object"))
+        if isinstance(x, ast.BinOp) and isinstance(x.op, ast.Mult):
+            for side in (x.left, x.right):
+                if isinstance(side, (ast.List, ast.Tuple)) and side.elts \
+                        and any(_mutable_value(e) for e in side.elts):
+                    out.append((x, f"{norm(x, 50)}: every slot holds the same object"))
     return out
 
 
@@ -310,6 +341,7 @@ LINTS = [
     ("split", _split, True),
     ("setor", _setor, True),
     ("strip", _strip, True),
+    ("shared", _shared, True),
     ("mutate", _mutate, False),     # only for modules that are handed a description
 ]
 
@@ -332,7 +364,7 @@ def lints(run, P, prop, extra_files=()):
              "a loop that is only computed in another loop; parallel sequences ordered "
              "alike; no loop variable used in a later loop; no identity comparison of values; data "
              "split by separator; union, not 'or', of variable sets; no word handed to "
-             "strip(); no "
+             "strip(); no one mutable object as the value of many keys; no "
              "argument passed under another parameter's name; no in-place change of a "
              "description handed in", minimum=3)
     files = sorted(set(anchor_files(prop)) | set(extra_files))
